@@ -282,6 +282,17 @@ fn main() {
             }
         }
     }
+    // very long vectors: a single defect at positions around multiples of 8 (block boundaries)
+    for &len in &[256usize, 257, 512, 1024, 1025] {
+        for carrier in [0u8, 2u8] {
+            for pos in (0..len).filter(|p| matches!(p % 8, 0 | 1 | 7)) {
+                let mut word = vec![carrier; len];
+                word[pos] = if pos % 2 == 0 { 1 } else { 2 - carrier };
+                check_word::<f64>(&word, &mut ev, 3_000_000 + systematic, &[0]);
+                systematic += 1;
+            }
+        }
+    }
     ev.add("systematic_long_vectors", systematic);
 
     // random long vectors
